@@ -203,8 +203,9 @@ def r2_tallies(repo, report):
         rets = [n for n in ast.walk(f) if isinstance(n, ast.Return) and isinstance(n.value, ast.Call)]
         ok = len(rets) == 1 and chain(rets[0].value.func) == sname and rets[0].value.args and src(rets[0].value.args[0]) == "self"
         if cname == "LinkedAdapter" and ok:
-            kw = {k.arg: src(k.value) for k in rets[0].value.keywords}
-            ok = kw == {"front": "self.front_adapter", "back": "self.back_adapter"}
+            from ..repo import call_arguments
+            ca = {k: src(v) for k, v in call_arguments(repo, rets[0].value).items()}
+            ok = ca.get("front") == "self.front_adapter" and ca.get("back") == "self.back_adapter" and len(ca) == 3
         report.ob("C20.R2", f"{cname}.create_statistics", ok, facts={"returns": src(rets[0].value) if rets else None}, expected=f"{sname}(self, ...)", loc=repo.loc(f))
     # 5' adapter classes (incl. subclasses) inherit the front statistics, 3' the back statistics
     for sub in repo.subclasses("SingleAdapter"):
